@@ -3,22 +3,28 @@ From Coq Require Import QArith Qminmax Lqa List String Bool ZArith.
 Import ListNotations.
 Open Scope string_scope.
 
+Inductive val :=
+| VNum (q : Q) | VStr (s : string) | VBool (b : bool) | VNone
+| VList (l : list val) | VObj (fields : list (string * val)) | VErr (msg : string).
+
 (* Numeric operations are a parameter of the interpreter.  Proofs are carried out for an arbitrary record of
    operations satisfying [ops_ok] (so that evaluation cannot unfold rational arithmetic: the operations are
    variables) and then instantiated with [real_ops]; the correspondence check evaluates with [real_ops]. *)
 Record qops := mkOps {
   qadd : Q -> Q -> Q; qsub : Q -> Q -> Q; qmul : Q -> Q -> Q; qdiv : Q -> Q -> Q;
-  qmax : Q -> Q -> Q; qmin : Q -> Q -> Q; qleb : Q -> Q -> bool; qeqb : Q -> Q -> bool }.
-Definition real_ops : qops := mkOps Qplus Qminus Qmult Qdiv Qmax Qmin Qle_bool Qeq_bool.
+  qmax : Q -> Q -> Q; qmin : Q -> Q -> Q; qleb : Q -> Q -> bool; qeqb : Q -> Q -> bool;
+  (* what a call of another function (by name) returns; VErr m = it raises m.  Theorems about a body with calls
+     assume the callee's specification about [ocall O]; base/PyLink.v discharges it by running the callee's own
+     regenerated body *)
+  ocall : string -> list val -> val }.
+Definition real_ops : qops := mkOps Qplus Qminus Qmult Qdiv Qmax Qmin Qle_bool Qeq_bool (fun _ _ => VErr "NameError").
+Definition with_calls (O : qops) (c : string -> list val -> val) : qops :=
+  mkOps (qadd O) (qsub O) (qmul O) (qdiv O) (qmax O) (qmin O) (qleb O) (qeqb O) c.
 Record ops_ok (O : qops) : Prop := mkOk {
   qadd_eq : qadd O = Qplus; qsub_eq : qsub O = Qminus; qmul_eq : qmul O = Qmult; qdiv_eq : qdiv O = Qdiv;
   qmax_eq : qmax O = Qmax; qmin_eq : qmin O = Qmin; qleb_eq : qleb O = Qle_bool; qeqb_eq : qeqb O = Qeq_bool }.
 Lemma real_ok : ops_ok real_ops.
 Proof. constructor; reflexivity. Qed.
-
-Inductive val :=
-| VNum (q : Q) | VStr (s : string) | VBool (b : bool) | VNone
-| VList (l : list val) | VObj (fields : list (string * val)) | VErr (msg : string).
 
 Inductive binop := Add | Sub | Mul | Div.
 Inductive cmpop := Eq | NotEq | Lt | LtE | Gt | GtE.
@@ -37,7 +43,8 @@ Inductive expr :=
 | EIndex (e : expr) (n : nat)                    (* e[0] *)
 | EIsObj (e : expr)                              (* isinstance(e, boxes.Box) *)
 | ETuple (es : list expr)                        (* (a, b) / [a, b] *)
-| EIn (neg : bool) (e : expr) (c : expr).        (* e in c / e not in c *)
+| EIn (neg : bool) (e : expr) (c : expr)         (* e in c / e not in c *)
+| ECall (f : string) (args : list expr).         (* f(a, b): another translated function (method: ".name", self first) *)
 
 Inductive target := TVar (x : string) | TAttr (x : string) (a : string).
 
@@ -48,6 +55,8 @@ Inductive stmt :=
 | SExtend (x : string) (e : expr)
 | SReturn (e : expr)
 | SFor (x : string) (it : expr) (body : list stmt)   (* for x in it: body *)
+| SAssert (e : expr)
+| SUnpack (ts : list target) (e : expr)           (* a, b.c = e *)
 | SPass.
 
 Definition env := list (string * val).
@@ -205,6 +214,12 @@ Fixpoint eval (rho : env) (e : expr) (k : val -> R) {struct e} : R :=
                | x :: l' => veq_k x v (fun b => if b then k (VBool (negb neg)) else mem l')
                end) l
         | VErr m => err m | _ => err "TypeError" end))
+  | ECall f args =>
+      (fix go (es : list expr) (acc : list val) : R :=
+         match es with
+         | [] => match ocall O f (rev acc) with VErr m => err m | v => k v end
+         | e1 :: es' => eval rho e1 (fun v => match v with VErr m => err m | _ => go es' (v :: acc) end)
+         end) args []
   | EMaxGen elt x it cond | EMinGen elt x it cond =>
       let ismax := match e with EMaxGen _ _ _ _ => true | _ => false end in
       eval rho it (fun vit =>
@@ -257,6 +272,14 @@ Fixpoint exec (s : stmt) (rho : env) (k : env -> A) {struct s} : A :=
       eval A kerr rho it (fun vit =>
         match vit with
         | VList l => gen_iter (fun v rho k' => block body (update x v rho) k') l rho k
+        | VErr m => kerr m | _ => kerr "TypeError" end)
+  | SAssert e => eval A kerr rho e (fun v => bool_k A kerr v (fun t => if t then k rho else kerr "AssertionError"))
+  | SUnpack ts e =>
+      eval A kerr rho e (fun v =>
+        match v with
+        | VList vs => if Nat.eqb (List.length ts) (List.length vs)
+                      then k (fold_left (fun r tv => assign1 r (fst tv) (snd tv)) (combine ts vs) rho)
+                      else kerr "ValueError"
         | VErr m => kerr m | _ => kerr "TypeError" end)
   end.
 Fixpoint exec_block (l : list stmt) (rho : env) (k : env -> A) : A :=
